@@ -33,6 +33,7 @@ EXTRA = {
     'latecomment': None,       # a second doctest with a later comment that starts like a force-disable marker
     'afterword': None,         # a second, freeform doctest under prose that ends in the word "subscript"
     'dotswant': None,          # a second doctest whose want starts with the bare wildcard line and goes on with '... tail'
+    'skipopen_before': None,   # an *earlier* doctest of the module ends with a block +SKIP that is never switched off again
 }
 
 
@@ -95,6 +96,11 @@ class DumpSpec(c01.ProgSpec):
         body = '\n'.join(('        ' + l) if l else '' for l in doc)
         src = 'def f():\n    r%s\n    Example:\n%s\n    %s\n' % (q, body, q)
         n_enabled = 1
+        f_index = 0
+        if extra == 'skipopen_before':
+            src = ('def e0():\n    """\n    Example:\n        >>> zz = 1\n        >>> # xdoctest: +SKIP\n        >>> zz = slow()\n    """\n\n\n') + src
+            n_enabled = 2
+            f_index = 1
         if extra == 'disabled2nd':
             src += '\n\ndef g():\n    """\n    Example:\n        >>> # DISABLE_DOCTEST\n        >>> zz = 1\n    """\n'
         elif extra == 'second':
@@ -166,9 +172,9 @@ class DumpSpec(c01.ProgSpec):
             if '# ... tail' not in glines or '# ...' not in glines or 'tail' in glines:
                 atoms.append({'sig': 'dump:want-starting-with-dots-not-preserved', 'msg': out})
         # body of the first function
-        f0 = fdefs[0]
+        f0 = fdefs[f_index]
         lines = out.split('\n')
-        end = fdefs[1].lineno - 1 if len(fdefs) > 1 else len(lines)
+        end = fdefs[f_index + 1].lineno - 1 if len(fdefs) > f_index + 1 else len(lines)
         fbody = lines[f0.lineno:end]
         fbody = [l[4:] if l.startswith('    ') else l for l in fbody]
         exp = [e for e in exec_lines_of(doc) if e.strip() and ' import *' not in e]
